@@ -321,9 +321,6 @@ SUP_LATE: Mechanism = ("superior-chain-over-origin", "C03-F10", superior_chain_o
 
 MECHANISMS: Dict[str, List[Mechanism]] = {
     "anchoring-genes": [
-        ("stale-cutoff-cache", "C03-F1", stale_cutoff_cache),
-        ("whole-record-window", "C03-F2", whole_record_window),
-        ("origin-spanning-hit-gene", "C03-F3", spanning_hit_gene),
         ("window-edge-over-origin", "C03-F4", window_edge),
     ],
     "neighbourhood": [("ring-closes", "C03-F5", ring_closes)],
@@ -334,8 +331,7 @@ MECHANISMS: Dict[str, List[Mechanism]] = {
         ("merged-cores-with-extenders", "C03-F11", merged_cores_with_extenders),
     ],
     "core-smallest-span": [("wrap-prone", "C03-F6", wrap_prone_own)],
-    "extenders-core": [("origin-spanning-gene-in-chain", "C03-F3", spanning_member_own),
-                       ("wrap-prone", "C03-F6", wrap_prone_own),
+    "extenders-core": [("wrap-prone", "C03-F6", wrap_prone_own),
                        ("half-ring", "C03-F6", half_ring_with_extenders)],
     "chains-maximal": [WRAP_ANY, SPAN_ANY, SUP_OVER, SUP_LATE],
     "one-protocluster-per-chain": [WRAP_ANY, SPAN_ANY, SUP_LATE],
@@ -379,9 +375,6 @@ FINDING_IDS = sorted({owner for entries in MECHANISMS.values() for _, owner, _ i
 
 CASE_PRIORITY = (
     "gene-at-0-with-origin-spanning-gene",
-    "stale-cutoff-cache",
-    "whole-record-window",
-    "origin-spanning-hit-gene",
     "window-edge-over-origin",
     "origin-spanning-gene-in-chain",
     "wrap-prone",
